@@ -310,6 +310,13 @@ func (t *toks) u() uint64 {
 	return v
 }
 func (t *toks) n() int { return int(t.u()) }
+func (t *toks) z() int {
+	v, err := strconv.Atoi(t.s())
+	if err != nil {
+		panic(err)
+	}
+	return v
+}
 func (t *toks) ents() []Ent {
 	n := t.n()
 	es := make([]Ent, n)
